@@ -8,7 +8,7 @@ from __future__ import annotations
 from core import Case
 
 PID = "C09"
-LEAN_MODULES = ["KrroodVerif.Props.C09", "KrroodVerif.Props.C09Lazy"]
+LEAN_MODULES = ["KrroodVerif.Props.C09", "KrroodVerif.Props.C09Lazy", "KrroodVerif.Props.C09Shape", "KrroodVerif.Props.C09Sched"]
 THEOREMS = [
     "KrroodVerif.Quant.C09_run_eq_spec",
     "KrroodVerif.Quant.C09_mk_wf",
@@ -22,12 +22,24 @@ THEOREMS = [
     "KrroodVerif.Quant.C09_consumed",
     "KrroodVerif.Quant.C09_consumed_upper",
     "KrroodVerif.Quant.C09_interleaving_independent",
+    "KrroodVerif.Quant.C09_shape_is_model",
+    "KrroodVerif.Quant.C09_shape_ok_eq_run",
+    "KrroodVerif.Quant.C09_shape_ok_eq_spec",
+    "KrroodVerif.Quant.C09_shape_ok_consumed",
+    "KrroodVerif.Quant.C09_shape_ok_the",
+    "KrroodVerif.Quant.C09_shape_the_is_model",
+    "KrroodVerif.Quant.C09_shape_ok_sched",
 ]
-MODEL_FUNCTION = "Quant.run / Quant.assertSat / Quant.mkSingle / Quant.mkRange / Quant.theRun (Model/Quantifier.lean)"
+MODEL_FUNCTION = ("Quant.run / Quant.assertSat / Quant.mkSingle / Quant.mkRange / Quant.theRun (Model/Quantifier.lean); "
+                  "Quant.interpLoop / interpThe / interpSched over the regenerated LoopShape (Model/QuantShape.lean)")
 TRUSTED = [
     "Lean 4.33 kernel; axioms of each theorem listed under coverage.theorems",
     "hand-written model Model/Quantifier.lean of result_quantification_constraint.py and ResultQuantifier._evaluate__/The",
     "this correspondence harness (exhaustive grid over the real API) and the S-expression driver",
+    "the two translators harness/translate/c09_translate.py (constraint classes) and c09_loop_translate.py (counting loop "
+    "-> LoopShape): strict (unrecognised statements are rejected), their reading of the recognised statements and the "
+    "interpreter Model/QuantShape.lean of a LoopShape are trusted (interpSched reproduces, by `decide`, what the real code "
+    "showed under the seeded changes C03-m2 and C09-m1: Props/C09Sched.lean)",
 ]
 ASSUMPTIONS = [
     "the child query yields exactly its n solutions (that is C01/C02's subject, not C09's); the model is parametric in the "
@@ -43,23 +55,15 @@ RULE = ("exhaustive grid: every constraint kind x bounds 0..B x n 0..N through t
 EXHAUSTIVE = True
 
 
-def extra_obligations():
-    """Regenerate the Lean transcription of the assert_satisfaction / __post_init__ bodies from /repo's CURRENT source
-    and have the kernel re-check that it equals the hand-written model (a second, translator-based tie)."""
+def _check_generated(tag: str, text: str, names):
+    """compile one generated Lean file; per obligation: does the kernel accept it, and on which axioms"""
+    import os
     import re
     import subprocess
     import core
-    sys_path_repo = core.REPO
-    names = ["KrroodVerif.Quant.Translated.C09_assert_translated_eq_model",
-             "KrroodVerif.Quant.Translated.C09_post_init_translated_eq_model"]
-    from translate.c09_translate import generate as gen, TranslationError
-    try:
-        text = gen(sys_path_repo)
-    except (TranslationError, SyntaxError, OSError) as e:
-        return [{"name": n, "ok": False, "detail": f"translator rejected the source: {e}"} for n in names]
     tmp = core.LEAN_DIR / ".lake" / "audit"
     tmp.mkdir(parents=True, exist_ok=True)
-    f = tmp / f"C09Translated_{__import__('os').getpid()}.lean"
+    f = tmp / f"C09{tag}_{os.getpid()}.lean"
     f.write_text(text + "".join(f"#print axioms {n}\n" for n in names))
     try:
         p = subprocess.run(["lake", "env", "lean", str(f)], cwd=str(core.LEAN_DIR), capture_output=True, text=True, timeout=600)
@@ -68,7 +72,8 @@ def extra_obligations():
             f.unlink()
         except OSError:
             pass
-    out = " ".join(((p.stdout or "") + (p.stderr or "")).split())
+    raw = (p.stdout or "") + (p.stderr or "")
+    out = " ".join(raw.split())
     res = []
     for n in names:
         m = re.search(r"'" + re.escape(n) + r"' depends on axioms: \[([^\]]*)\]", out)
@@ -76,6 +81,41 @@ def extra_obligations():
         ax = [a.strip() for a in m.group(1).split(",")] if m else ([] if none else None)
         ok = p.returncode == 0 and ax is not None and set(ax) <= core.ALLOWED_AXIOMS
         res.append({"name": n, "ok": ok, "axioms": ax, "detail": (p.stdout or "")[-2000:] + (p.stderr or "")[-1000:]})
+    return res
+
+
+LOOP_SHAPE = {}
+
+
+def extra_obligations():
+    """Second, translator-based tie. From /repo's CURRENT source regenerate
+    (1) the Lean transcription of the assert_satisfaction / __post_init__ bodies (result_quantification_constraint.py) and
+    (2) the description `LoopShape` of the counting loop that calls them (ResultQuantifier._evaluate__ / evaluate,
+        The._evaluate__ / evaluate / default constraint in symbolic.py),
+    and have the kernel re-check (1) translated = hand-written model for all arguments, (2) `ShapeOk rawShape` and
+    `shape = Quant.shape` by `decide` (Props/C09Shape.lean turns these into statements about all inputs)."""
+    import core
+    res = []
+    from translate.c09_translate import generate as gen, TranslationError
+    names = ["KrroodVerif.Quant.Translated.C09_assert_translated_eq_model",
+             "KrroodVerif.Quant.Translated.C09_post_init_translated_eq_model"]
+    try:
+        res += _check_generated("Translated", gen(core.REPO), names)
+    except (TranslationError, SyntaxError, OSError) as e:
+        res += [{"name": n, "ok": False, "detail": f"translator rejected the source: {e}"} for n in names]
+    from translate import c09_loop_translate as lt
+    try:
+        src = (core.REPO / "src/krrood/entity_query_language/symbolic.py").read_text()
+        d = lt.describe(src)
+        LOOP_SHAPE.clear(); LOOP_SHAPE.update(d)
+        res += _check_generated("Loop", lt.render(d), lt.OBLIGATIONS)
+    except (lt.TranslationError, SyntaxError, OSError) as e:
+        res += [{"name": n, "ok": False, "detail": f"translator rejected the source: {e}"} for n in lt.OBLIGATIONS]
+    for r in res:
+        if not r["ok"]:
+            d = r.get("detail", "")
+            why = d if d.startswith("translator rejected") else "the kernel no longer accepts it"
+            print(f"obligation broken: {r['name']} ({why}); searching a concrete failing input through the correspondence")
     return res
 
 
@@ -124,6 +164,9 @@ def generate(rng, tier, n):
                     cases.append(Case(f"({h} {c} {v + extra} {ks})", ("hist", kind, "retry") + tg, "exhaustive"))
                     cases.append(Case(f"({h} {c} {v + extra} {ks2})", ("hist", kind, "retry") + tg, "exhaustive"))
     # the(...) as an operand of an enclosing query; Symbol-typed list domains (other instances of the type alive elsewhere)
+    for k in range(4):
+        for k2 in range(4):
+            cases.append(Case(f"(nthem {k} {k2})", ("the", "nested-operand", "data-changed"), "exhaustive"))
     for k in range(min(N, 5) + 1):
         cases.append(Case(f"(nthe {k})", ("the", "nested-operand"), "exhaustive"))
         for extra in (0, 2):
@@ -259,6 +302,12 @@ class _Item:
     def __init__(self, i): self.i = i
 
 
+class _TagItem(_Item):
+    """domain elements with a mutable attribute the sub-query's condition reads"""
+    __slots__ = ("tag",)
+    def __init__(self, i): self.i = i; self.tag = 0
+
+
 class _Done:
     """an evaluation that has ended (by StopIteration or by an error): every further next() is 'stop'"""
     _done = True
@@ -319,6 +368,25 @@ def _one(case: Case) -> str:
             y = let(_Item, inner)
             got = [r.i for r in an(entity(x, x.i == the(entity(y, y.i >= 0)).i)).evaluate()]
             return f"value {got[0]}" if len(got) == 1 else f"rows {got}"
+        if s[0] == "nthem":
+            # the(...) as an operand, the enclosing query evaluated TWICE; between the evaluations the data change so that
+            # the sub-query has n1, then n2 solutions: every evaluation enforces the count there is when it runs
+            n1, n2 = int(s[1]), int(s[2])
+            outer = [_Item(i) for i in range(3)]
+            inner = [_TagItem(i) for i in range(max(n1, n2, 1))]
+            x = let(_Item, outer)
+            y = let(_TagItem, inner)
+            q = an(entity(x, x.i == the(entity(y, y.tag == 1)).i))
+            outs = []
+            for n in (n1, n2):
+                for j, it in enumerate(inner):
+                    it.tag = 1 if j < n else 0
+                try:
+                    got = [r.i for r in q.evaluate()]
+                    outs.append(f"value {got[0]}" if len(got) == 1 else f"rows {got}")
+                except Exception as ex:  # noqa: BLE001
+                    outs.append(_exc_name(ex))
+            return " ; ".join(outs)
         if s[0] == "runs":
             c = _mk(s[1])
             n, extra = int(s[2]), int(s[3])
